@@ -4,7 +4,8 @@ CONSTANTS
  MaxInit = 4
  MaxDepth = 5
  MergeRule = "asis"
- Ops = {"Split","Merge","StopPeer","Remove","SetState","Reload"}
+ Ops = {"Split","Merge","StopPeer","Remove","SetState","Rewrite","Reload"}
+ Script <- NoScript
  Emit = FALSE
 INVARIANT PartitionOrWitness
 INVARIANT DiskOK
